@@ -8,12 +8,14 @@ import (
 )
 
 // faults: runs one program fault-free, then once per fault point: the destination writer failing at its
-// k-th write for every k, the loader failing at its k-th load for every k; the same through ExecuteSafe.
+// k-th write for every k, the loader failing at its k-th load for every k (by returning an error, and by returning a template
+// whose contents cannot be read to the end); the same through ExecuteSafe.
 // Every run is reported as the sequence of public events the harness saw (binding T, C17).
 type faultRun struct {
 	Safe   bool    `json:"safe"`
 	WriteK int     `json:"wk"`
 	LoadK  int     `json:"lk"`
+	ReadK  int     `json:"rk"` // the load that fails is one whose contents cannot be read (reported as lk too)
 	Events []Event `json:"events"`
 	RetOK  bool    `json:"ret_ok"`
 	Err    string  `json:"err,omitempty"`
@@ -29,9 +31,14 @@ func init() {
 		if err != nil {
 			return nil, err
 		}
-		one := func(safe bool, wk, lk int) (faultRun, *recorder) {
+		one := func(safe bool, wk, lk int, rks ...int) (faultRun, *recorder) {
 			ctx, _ := buildCtx(c.Ctx)
 			rec := &recorder{srcs: srcs, writeFail: wk, loadFail: lk, failedAt: -1}
+			rk := 0
+			if len(rks) > 0 {
+				rk = rks[0]
+				rec.readFail = rk
+			}
 			var env *stick.Env
 			if c.Env == "twig" {
 				env = twig.New(rec)
@@ -45,7 +52,7 @@ func init() {
 			} else {
 				xerr = env.Execute(c.Entry, rec, ctx)
 			}
-			fr := faultRun{Safe: safe, WriteK: wk, LoadK: lk, RetOK: xerr == nil}
+			fr := faultRun{Safe: safe, WriteK: wk, LoadK: lk + rk, ReadK: rk, RetOK: xerr == nil}
 			if xerr != nil {
 				fr.Err = xerr.Error()
 			}
@@ -88,6 +95,13 @@ func init() {
 		}
 		for k := 1; k <= L; k++ {
 			r, _ := one(true, 0, k)
+			runs = append(runs, r)
+		}
+		// a template that is found and whose contents cannot be read to the end is a template that cannot be loaded
+		for k := 1; k <= L; k++ {
+			r, _ := one(false, 0, 0, k)
+			runs = append(runs, r)
+			r, _ = one(true, 0, 0, k)
 			runs = append(runs, r)
 		}
 		so := map[string]string{}
